@@ -1699,6 +1699,20 @@ func (g *generator) orphanPlan() []Op {
 	rf := func() *FSpec {
 		return &FSpec{K: "rel", Subs: []*FSpec{{K: "all", Ids: []int{rel}, Tgt: -1}}, Tgt: p}
 	}
+	if g.pct(45) {
+		// variant: the parent's table in the second node is emptied first (two children, so that the second creation
+		// finds the table), then the parent dies and the table is retired; the orphan of the first node then moves
+		// into that node, and a new parent gets a child there - the retired table is put to use again
+		c3 := p + 3
+		p2 := p + 4
+		return []Op{{Op: "NewEntity", Api: "World.NewEntity", Ids: []int{}}, child([]int{rel}), child([]int{rel, x}), child([]int{rel, x}),
+			{Op: "RemoveEntity", E: c2}, {Op: "RemoveEntity", E: c3}, {Op: "RemoveEntity", E: p},
+			{Op: "Exchange", Api: "World.Add", E: c1, Add: []int{x}, Rem: []int{}, Tgt: -1},
+			{Op: "NewEntity", Api: "World.NewEntity", Ids: []int{}},
+			{Op: "BuilderNew", Api: "Builder.New", Ids: []int{rel, x}, HasRel: true, Rel: rel, HasTgt: true, Tgt: p2},
+			{Op: "Panel", F: &FSpec{K: "rel", Subs: []*FSpec{{K: "all", Ids: []int{rel}, Tgt: -1}}, Tgt: p2}, Walk: g.walk()},
+			{Op: "Panel", F: rf(), Walk: g.walk()}}
+	}
 	plan := []Op{{Op: "NewEntity", Api: "World.NewEntity", Ids: []int{}}, child([]int{rel}), child([]int{rel, x}),
 		{Op: "RemoveEntity", E: p}}
 	if g.pct(50) {
